@@ -145,7 +145,7 @@ impl Universe {
     pub fn new(net: Network, rng: &mut Rng, n_each: usize) -> Universe {
         let mut addrs = vec![];
         let mut twins = vec![];
-        let mut add = |addrs: &mut Vec<Addr>, script: Vec<u8>, kind: &'static str| -> usize {
+        let add = |addrs: &mut Vec<Addr>, script: Vec<u8>, kind: &'static str| -> usize {
             let text = address_text(&script, net).expect("address for script");
             addrs.push(Addr { text, script, kind });
             addrs.len() - 1
